@@ -8,6 +8,7 @@ import (
 	"io"
 	"log/slog"
 	"math/rand"
+	"net"
 	"sort"
 	"strings"
 	"sync"
@@ -751,4 +752,77 @@ func TestOversizedAfterPeerCrash(t *testing.T) {
 		}
 		sub.Case(vf.Digest(sub.Seed(i)), true)
 	}
+}
+
+// ---- re-joining after a long outage (thorough tier only: the code's own timer is 5 minutes) ---------
+
+func freeLoopbackPort() int {
+	l, err := net.Listen("tcp", "127.0.0.1:0")
+	if err != nil {
+		return 0
+	}
+	defer l.Close()
+	return l.Addr().(*net.TCPAddr).Port
+}
+
+// TestRejoinAfterLongOutage: a peer that crashed stays on the survivors' list of failed peers for the
+// reconnect timeout (hours) and is dialled every reconnect interval; when it comes back on its old
+// address - without being able to join by itself - it is re-admitted and obtains the full state. The
+// list is pruned by a task that runs every 5 minutes, so the outage has to span one such run.
+func TestRejoinAfterLongOutage(t *testing.T) {
+	run := vf.Cur()
+	if run.Quick() {
+		t.Skip("thorough tier only: needs 5.5 minutes of real time")
+	}
+	sub := run.Sub("rejoin-after-long-outage", "thorough tier only: two real peers on loopback with the production reconnect tasks (reconnect every 2 s, reconnect timeout 6 h, failed-peer pruning every 5 min as hard-coded); one crashes without a leave, stays away for 5 min 20 s (one pruning run), and is restarted on its old address with no peers to join; it must be re-admitted by the survivor's reconnect task and hold the survivor's silences within 60 s; non-trivial = every case; distinct by (case)", 1)
+	pa, pb := freeLoopbackPort(), freeLoopbackPort()
+	mk := func(name string, port int, join []string) (*node, error) {
+		reg := prometheus.NewRegistry()
+		p, err := cluster.Create(logger, reg, fmt.Sprintf("127.0.0.1:%d", port), "", join, false, time.Hour, 50*time.Millisecond, 5*time.Second, 2*time.Second, 500*time.Millisecond, 200*time.Millisecond, nil, true, "", name)
+		if err != nil {
+			return nil, err
+		}
+		n := &node{name: name, peer: p, reg: reg}
+		n.sil, _ = silence.New(silence.Options{Retention: time.Hour, Metrics: reg, EventRecorder: eventrecorder.NopRecorder()})
+		n.nfl, _ = nflog.New(nflog.Options{Retention: time.Hour, Metrics: reg})
+		n.sil.SetBroadcast(p.AddState("sil", n.sil, reg).Broadcast)
+		n.nfl.SetBroadcast(p.AddState("nfl", n.nfl, reg).Broadcast)
+		p.Join(2*time.Second, 6*time.Hour)
+		return n, nil
+	}
+	a, err := mk("long-a", pa, nil)
+	if err != nil {
+		sub.Inconclusive(err.Error())
+		return
+	}
+	defer a.stop()
+	b, err := mk("long-b", pb, []string{a.addr()})
+	if err != nil {
+		sub.Inconclusive(err.Error())
+		return
+	}
+	if !waitMembers([]*node{a, b}, 2) {
+		b.stop()
+		sub.Inconclusive("cluster did not form")
+		return
+	}
+	now := time.Now()
+	s := silh.NewSilence("", [][]model.Matcher{{{Name: "alertname", Op: "=", Value: "A"}}}, now, now.Add(50*time.Minute), "made while both were up")
+	a.sil.Set(context.Background(), s)
+	b.peer.VerifCrash()
+	time.Sleep(5*time.Minute + 20*time.Second)
+	s2 := silh.NewSilence("", [][]model.Matcher{{{Name: "alertname", Op: "=", Value: "B"}}}, time.Now(), time.Now().Add(50*time.Minute), "made during the outage")
+	a.sil.Set(context.Background(), s2)
+	b2, err := mk("long-b", pb, nil)
+	if err != nil {
+		sub.Inconclusive("restart on the old address: " + err.Error())
+		return
+	}
+	defer b2.stop()
+	ok := waitFor(60*time.Second, func() bool { return b2.hasSilence(s.Id, s.Comment) && b2.hasSilence(s2.Id, s2.Comment) })
+	sub.Count("outage_seconds", 320)
+	if !ok {
+		sub.Violation("returning-peer-not-readmitted-after-a-long-outage", map[string]any{"outage": "5m20s", "survivor_cluster_size": a.peer.ClusterSize(), "returning_peer_has_first_silence": b2.hasSilence(s.Id, s.Comment), "returning_peer_has_second_silence": b2.hasSilence(s2.Id, s2.Comment)})
+	}
+	sub.Case(vf.Digest("long-outage"), true)
 }
